@@ -10,7 +10,8 @@ use crate::commands::{self, CommandArg};
 use crate::env::{EnvironmentLookup, EnvironmentScope, valid_variable_name};
 use crate::openfiles::{OpenFile, OpenFiles};
 use crate::results::{
-    ExecutionExitCode, ExecutionResult, ExecutionSpawnResult, ExecutionWaitResult,
+    ExecutionControlFlow, ExecutionExitCode, ExecutionResult, ExecutionSpawnResult,
+    ExecutionWaitResult,
 };
 use crate::shell::Shell;
 use crate::variables::{
@@ -392,8 +393,15 @@ impl Execute for ast::Pipeline {
             wait_for_pipeline_processes_and_update_status(self, spawn_results, shell, &params)
                 .await?;
 
-        // Invert the exit code if requested.
-        if self.bang {
+        // Invert the exit code if requested. A pipeline that is leaving the function or the
+        // shell (`! return 1`, `! exit 4`) carries the status of that transfer, which `!`
+        // must not touch.
+        if self.bang
+            && !matches!(
+                result.next_control_flow,
+                ExecutionControlFlow::ReturnFromFunctionOrScript | ExecutionControlFlow::ExitShell
+            )
+        {
             result.exit_code = ExecutionExitCode::from(if result.is_success() { 1 } else { 0 });
         }
 
